@@ -17,6 +17,7 @@ import (
 	"strconv"
 	"strings"
 	"sync"
+	"syscall"
 	"time"
 
 	"github.com/spq/pkappa2/verif/sim"
@@ -205,17 +206,12 @@ func run(dir string, env []string, name string, args ...string) (string, error) 
 
 func prepare(race bool, engine string) *build {
 	goBin, env := goEnv()
-	base := os.Getenv("VERIF_SCRATCH")
-	if base == "" {
-		base = os.Getenv("TMPDIR")
-	}
-	if base == "" {
-		base = "/var/tmp"
-	}
+	base := scratchBase()
 	scratch, err := os.MkdirTemp(base, "verif-")
 	if err != nil {
 		die(2, "scratch: %v", err)
 	}
+	os.WriteFile(filepath.Join(scratch, "pid"), []byte(strconv.Itoa(os.Getpid())), 0o644)
 	b := &build{scratch: scratch, goBin: goBin, env: env}
 	harness := filepath.Join(verifDir, "harness")
 	repo := "/repo"
@@ -267,6 +263,48 @@ func prepare(race bool, engine string) *build {
 		die(2, "building vconv failed: %v\n%s", err, out)
 	}
 	return b
+}
+
+// scratchBase picks where the per-check scratch tree lives: $VERIF_SCRATCH,
+// else a memory file system when the machine has one with room (the
+// simulated runs create and delete thousands of small files; on the
+// sandbox's disk that, not the code under test, is what bounds the number of
+// runs per second), else $TMPDIR, else /var/tmp. Scratch trees whose check
+// process is gone (killed by a timeout) are removed on the way.
+func scratchBase() string {
+	base := os.Getenv("VERIF_SCRATCH")
+	if base == "" {
+		var st syscall.Statfs_t
+		if err := syscall.Statfs("/dev/shm", &st); err == nil && st.Type == 0x01021994 && uint64(st.Bavail)*uint64(st.Bsize) > 4<<30 {
+			if f, err := os.CreateTemp("/dev/shm", "verif-probe"); err == nil {
+				f.Close()
+				os.Remove(f.Name())
+				base = "/dev/shm"
+			}
+		}
+	}
+	if base == "" {
+		base = os.Getenv("TMPDIR")
+	}
+	if base == "" {
+		base = "/var/tmp"
+	}
+	if ents, err := os.ReadDir(base); err == nil {
+		for _, e := range ents {
+			if !e.IsDir() || !strings.HasPrefix(e.Name(), "verif-") {
+				continue
+			}
+			d := filepath.Join(base, e.Name())
+			pb, err := os.ReadFile(filepath.Join(d, "pid"))
+			if err != nil {
+				continue
+			}
+			if pid, err := strconv.Atoi(strings.TrimSpace(string(pb))); err == nil && syscall.Kill(pid, 0) == syscall.ESRCH {
+				os.RemoveAll(d)
+			}
+		}
+	}
+	return base
 }
 
 func loadKnown() []knownFinding {
